@@ -187,8 +187,11 @@ def close(a, b, exact=True):
         return True
     if exact and is_exact(a) and is_exact(b):
         return False
-    a, b = float(a), float(b)
-    return abs(a - b) <= 1e-9 * max(abs(a), abs(b), 1e-300)
+    try:
+        a, b = float(a), float(b)
+    except OverflowError:
+        return True         # outside the double range: nothing to compare numerically
+    return abs(a - b) <= 1e-7 * max(abs(a), abs(b), 1e-300)
 
 
 # ------------------------------------------------------------------ the implementation side
@@ -337,6 +340,37 @@ class World:
             return False
         return is_exact(fu) and self.conv_exact(ucd(ru), b)
 
+    def value_scope(self, d, b, sysname, conv_is_exact=True):
+        """which value oracle applies to the conversion d -> b under `sysname`:
+        'exact'  every factor involved is an exact rational in the Fraction registry (source, answer, every
+                 declared base unit of the system): exact equality is demanded;
+        'float'  some factor went through a non-integer power (planck_*, alpha-dependent atomic units …) and is a
+                 float even here: numerical comparison with a relative tolerance;
+        'skip'   float factors raised to powers that leave the double range (intermediate products become
+                 denormal / inf and conversions are no longer multiplicative to better than 1e-4): out of scope,
+                 like the units C01/C02 exclude from the exactness clause"""
+        import math
+        u = self.u
+        names = dict(d)
+        for k, v in b.items():
+            names[k] = max(abs(F(v)), abs(F(names.get(k, 0))))
+        decl = []
+        if sysname in u._systems:
+            decl = [k for rep in u._systems[sysname].base_units.values() for k in rep]
+        exact, load = True, 0.0
+        try:
+            for n in list(names) + decl:
+                f, _ = u._get_root_units(mkuc(u, {n: 1}), check_nonmult=False)
+                if not is_exact(f):
+                    exact = False
+                if n in names and f:
+                    load += abs(float(names[n])) * abs(math.log10(abs(float(f))))
+        except Exception:      # noqa: BLE001 — OverflowError of Fraction ** float and the like
+            return "skip"
+        if exact and conv_is_exact:
+            return "exact"          # rational unit factors and pint stayed in exact arithmetic for this conversion
+        return "float" if load < 200 else "skip"
+
     def float_range(self, d, sysname):
         """an exception raised inside float arithmetic: the input or the system's units have float factors"""
         u = self.u
@@ -384,16 +418,22 @@ class World:
                 self.fail(f"base-units:raises:{res[1]}", f"get_base_units({d}) under {tag} raised {res[1]}")
             return
         f, b = res[1], res[2]
+        scope = self.value_scope(d, b, sysname, exact)
+        exact = scope == "exact"
         try:
             fu, ru = u._get_root_units(uc, check_nonmult=False)
             fb, rb = u._get_root_units(mkuc(u, b), check_nonmult=False)
         except Exception as e:      # noqa: BLE001
-            self.fail("base-units:result-not-resolvable", f"{d} -> {b}: {type(e).__name__}")
+            if exact:
+                self.fail("base-units:result-not-resolvable", f"{d} -> {b}: {type(e).__name__}")
+            else:
+                self.count("float-range")      # Fraction ** float overflow in pint's own expansion
             return
         ru, rb = ucd(ru), ucd(rb)
-        if not exact and not (finite(f) and finite(fu) and finite(fb)):
+        if scope == "skip" or (not exact and not (finite(f) and finite(fu) and finite(fb))):
             self.count("float-range")      # overflow / underflow of float factors: nothing to say about the value
             fu = fb = f = 1
+            scope = "skip"
         if sysname is None:
             if b != ru or not close(f, fu, exact):
                 self.fail("base-units:no-system-not-root", f"no system: {d} -> {f}, {b}; root units are {fu}, {ru}")
@@ -415,7 +455,7 @@ class World:
         r2 = self.call(u._get_base_units, mkuc(u, b), False, sysname)
         if r2[0] == "ok":
             f2, b2 = r2[1]
-            if ucd(b2) != b or ((exact or finite(f2)) and not close(f2, 1, exact)):
+            if ucd(b2) != b or (scope != "skip" and (exact or finite(f2)) and not close(f2, 1, exact)):
                 self.fail("base-units:idempotence", f"{b} under {sysname} -> {f2} {ucd(b2)}")
         elif exact or r2[1] not in ("XValue", "XOther"):
             self.fail("base-units:idempotence", f"{b} under {sysname} raises {r2[1]}")
@@ -642,12 +682,14 @@ class World:
                 return
             if r[0] == "ok":
                 fine = True
+                scope = self.value_scope(d, r[2], eff, exact)
+                exact = scope == "exact"
                 if eff is None or eff in u._systems:
                     r2 = self.call(u._get_base_units, mkuc(u, d), False, eff)
                     if r2[0] == "ok" and ucd(r2[1][1]) != r[2]:
                         fine = self.check_cached(d, eff, ("ok", None, r[2]))
                 if fine:
-                    if not exact and not finite(r[1]):
+                    if scope == "skip" or (not exact and not finite(r[1])):
                         self.count("float-range")
                         return
                     back = self.call(u.Quantity(r[1], mkuc(u, r[2])).to, mkuc(u, d))
